@@ -7,12 +7,14 @@
 (*   - injecting any foreign field at any boundary of any depth changes        *)
 (*     nothing.                                                                *)
 (* R = struct Rd {1: required string a, 2: optional i32 b = 7,                 *)
-(*                3: optional list<Inner> c, 4: optional Color g}              *)
+(*                3: optional list<Inner> c, 4: optional Color g,              *)
+(*                5: optional map<string, i32> m}                              *)
 (***************************************************************************)
 EXTENDS Evolve
 
 RdFields == << Field(1, "a", B("string"), TRUE, NoDef), Field(2, "b", B("i32"), FALSE, I(7)),
-               Field(3, "c", ListOf(Ref("Inner")), FALSE, NoDef), Field(4, "g", Ref("Color"), FALSE, NoDef) >>
+               Field(3, "c", ListOf(Ref("Inner")), FALSE, NoDef), Field(4, "g", Ref("Color"), FALSE, NoDef),
+               Field(5, "m", MapOf(B("string"), B("i32")), FALSE, NoDef) >>
 Rd == [name |-> "Rd", kind |-> "struct", items |-> <<>>, target |-> B("i32"), fields |-> RdFields]
 Ru == [name |-> "Ru", kind |-> "union", items |-> <<>>, target |-> B("i32"),
        fields |-> << Field(1, "a", B("string"), FALSE, NoDef), Field(2, "b", B("i32"), FALSE, NoDef), Field(3, "c", Ref("Inner"), FALSE, NoDef) >>]
@@ -20,19 +22,23 @@ RSchema == Support \o << Rd, Ru >>
 
 \* per-field evolution of the writer's version of Rd
 Variants(fd) ==
-  { fd,                                                        \* unchanged
-    [fd EXCEPT !.req = ~@],                                    \* requiredness changed
-    [fd EXCEPT !.name = @ \o "Renamed"] }                     \* renamed
+  { fd }                                                       \* unchanged
+  \cup (IF fd.id <= 2 THEN { [fd EXCEPT !.req = ~@],            \* requiredness changed
+                             [fd EXCEPT !.name = @ \o "Renamed"] }   \* renamed
+        ELSE { [fd EXCEPT !.req = ~@] })
   \cup (CASE fd.id = 1 -> { [fd EXCEPT !.t = B("binary")], [fd EXCEPT !.t = B("i32")], [fd EXCEPT !.t = Ref("MyStr")] }   \* same wire / other wire
           [] fd.id = 2 -> { [fd EXCEPT !.t = Ref("Color"), !.def = NoDef], [fd EXCEPT !.t = B("i64"), !.def = NoDef], [fd EXCEPT !.def = NoDef] }
           [] fd.id = 3 -> { [fd EXCEPT !.t = ListOf(B("i32"))], [fd EXCEPT !.t = SetOf(Ref("Inner"))], [fd EXCEPT !.t = ListOf(Ref("MyInner"))] }
-          [] fd.id = 4 -> { [fd EXCEPT !.t = B("i32")], [fd EXCEPT !.t = B("i16")] })
+          [] fd.id = 4 -> { [fd EXCEPT !.t = B("i32")], [fd EXCEPT !.t = B("i16")] }
+          \* a map whose key type only, value type only, or both changed; or unchanged on the wire
+          [] fd.id = 5 -> { [fd EXCEPT !.t = MapOf(B("string"), B("i64"))], [fd EXCEPT !.t = MapOf(B("i32"), B("i32"))],
+                            [fd EXCEPT !.t = MapOf(B("binary"), Ref("Color"))], [fd EXCEPT !.t = MapOf(B("i32"), Ref("Inner"))],
+                            [fd EXCEPT !.t = MapOf(B("string"), Ref("Inner"))] })
 Removed == [id |-> 0]
 Extras == { <<>>, << Field(9, "x9", B("i64"), FALSE, NoDef) >>, << Field(10, "x10", Ref("Inner"), FALSE, NoDef), Field(-5, "neg", ListOf(B("string")), FALSE, NoDef) >> }
 
-WriterFieldSets ==
-  { q \in [1..4 -> UNION { Variants(RdFields[i]) : i \in 1..4 } \cup {Removed}] :
-      \A i \in 1..4 : q[i] = Removed \/ q[i] \in Variants(RdFields[i]) }
+VR(i) == Variants(RdFields[i]) \cup {Removed}
+WriterFieldSets == { << a1, a2, a3, a4, a5 >> : a1 \in VR(1), a2 \in VR(2), a3 \in VR(3), a4 \in VR(4), a5 \in VR(5) }
 Compact(q) == SelectSeq(q, LAMBDA x : x # Removed)
 WriterDefs == { [name |-> "Rd", kind |-> "struct", items |-> <<>>, target |-> B("i32"), fields |-> Compact(q) \o ex] :
                 q \in WriterFieldSets, ex \in Extras }
@@ -42,22 +48,34 @@ WValues(S, d) == { St(SelectSeq([ i \in 1..Len(d.fields) |-> F(d.fields[i].name,
                    St(<<>>),
                    St(SelectSeq([ i \in 1..Len(d.fields) |-> F(d.fields[i].name, ValOfField(S, d.fields[i])) ], LAMBDA x : x.n \in {"a", "aRenamed", "x9"})) }
 
-VARIABLES wd, v, inj
-vars == <<wd, v, inj>>
+\* the writer schema is chosen field by field (actions, so that TLC's BFS is parallel), then the
+\* new fields, then the writer's value; only then (stage "ready") are the properties evaluated
+VARIABLES wd, v, inj, stage
+vars == <<wd, v, inj, stage>>
 WSchema == Support \o << wd, Ru >>
-Init == /\ wd \in WriterDefs
-        /\ v \in { x \in WValues(Support \o << wd, Ru >>, wd) : Valid(Support \o << wd, Ru >>, Ref("Rd"), x) }
-        /\ inj = <<>>
+EmptyRd == [name |-> "Rd", kind |-> "struct", items |-> <<>>, target |-> B("i32"), fields |-> <<>>]
+Init == wd = EmptyRd /\ v = St(<<>>) /\ inj = <<>> /\ stage = 1
+ChooseField == /\ stage \in 1..5
+               /\ \E x \in VR(stage) : wd' = IF x = Removed THEN wd ELSE [wd EXCEPT !.fields = Append(@, x)]
+               /\ stage' = stage + 1 /\ UNCHANGED <<v, inj>>
+ChooseExtras == /\ stage = 6
+                /\ \E ex \in Extras : wd' = [wd EXCEPT !.fields = @ \o ex]
+                /\ stage' = 7 /\ UNCHANGED <<v, inj>>
+ChooseValue == /\ stage = 7
+               /\ \E x \in WValues(WSchema, wd) : Valid(WSchema, Ref("Rd"), x) /\ v' = x
+               /\ stage' = 8 /\ UNCHANGED <<wd, inj>>
+Ready == stage = 8
 \* a second step: inject a foreign field somewhere (any depth, any boundary)
 Foreign == { [id |-> 77, v |-> Num(TBool, 1)], [id |-> 78, v |-> Bin(<<1, 2, 3>>)],
              [id |-> 2, v |-> Limb(TI64, <<0, 0, 0, 9>>)],                                  \* known id, other wire type
              [id |-> 79, v |-> [t |-> TList, et |-> TStruct, e |-> << [t |-> TStruct, f |-> << [id |-> 1, v |-> Num(TI8, 3)] >>] >>]],
              [id |-> 80, v |-> [t |-> TMap, kt |-> TBinary, vt |-> TList, m |-> << [k |-> Bin(<<107>>), v |-> [t |-> TList, et |-> TBool, e |-> <<>>]] >>]] }
 W0 == ToWireRef(WSchema, Ref("Rd"), v)
-DoInject == /\ inj = <<>>
+\* (evolution and injection are independent concerns: injection is explored on the unevolved writer)
+DoInject == /\ Ready /\ inj = <<>> /\ Len(wd.fields) >= 5 /\ SubSeq(wd.fields, 1, 5) = RdFields
             /\ \E pt \in Points(W0, <<>>), fx \in Foreign : inj' = << pt[1], pt[2], fx >>
-            /\ UNCHANGED <<wd, v>>
-Next == DoInject
+            /\ UNCHANGED <<wd, v, stage>>
+Next == ChooseField \/ ChooseExtras \/ ChooseValue \/ DoInject
 Spec == Init /\ [][Next]_vars
 
 WireTerm == IF inj = <<>> THEN W0 ELSE Inject(W0, inj[1], inj[2], inj[3])
@@ -70,12 +88,12 @@ CONSTANTS EmitMod, EmitPick
 RECURSIVE SumSeq(_)
 SumSeq(q) == IF q = <<>> THEN 0 ELSE Head(q) + SumSeq(Tail(q))
 CaseRec == [ wf |-> wd.fields, v |-> v, inj |-> inj, b |-> Bytes ]
-EmitCase == ((SumSeq(Bytes) + Len(Bytes)) % EmitMod = EmitPick) => PrintT(<<"CASE", ToJson(CaseRec)>>)
+EmitCase == (Ready /\ (SumSeq(Bytes) + Len(Bytes)) % EmitMod = EmitPick) => PrintT(<<"CASE", ToJson(CaseRec)>>)
 ASSUME PrintT(<<"RSCHEMA", ToJson(RSchema)>>)
 
 \* injected field 2 of another wire type must not disturb; a duplicate *matching* field would overwrite,
 \* which is why the foreign field with id 2 has a wire type R does not declare
-ReferenceAgrees == EqL(DecRef(RSchema, Ref("Rd"), Bytes), Want)
-ValuePathAgrees == EqL(ValuePath(RSchema, Ref("Rd"), Bytes), Want)
-StreamPathAgrees == EqL(StreamPath(RSchema, Ref("Rd"), Bytes), Want)
+ReferenceAgrees == Ready => EqL(DecRef(RSchema, Ref("Rd"), Bytes), Want)
+ValuePathAgrees == Ready => EqL(ValuePath(RSchema, Ref("Rd"), Bytes), Want)
+StreamPathAgrees == Ready => EqL(StreamPath(RSchema, Ref("Rd"), Bytes), Want)
 =============================================================================
